@@ -164,6 +164,25 @@ func c15ExplicitSpans(c *Ctx) {
 			good := isLoad(posArg, "pos")
 			if lc, ok := lenArg.(ssa.Instruction); ok && good {
 				good = instrDominates(posArg.(ssa.Instruction), lc)
+				// the width of the rune decoded at the position, with the position untouched since: [pos, pos+size)
+				// is that rune
+				if ex, isEx := lenArg.(*ssa.Extract); !good && isEx && ex.Index == 1 {
+					if dec, isCall := ex.Tuple.(*ssa.Call); isCall && calleeOf(dec) != nil && calleeOf(dec).String() == "unicode/utf8.DecodeRune" && instrDominates(dec, in) {
+						moved := false
+						instrs(g, func(_ *ssa.BasicBlock, _ int, w ssa.Instruction) {
+							if moved || !writes(w) || w == in {
+								return
+							}
+							isW := func(x ssa.Instruction) bool { return x == w }
+							isDec := func(x ssa.Instruction) bool { return x == ssa.Instruction(dec) }
+							isCallIn := func(x ssa.Instruction) bool { return x == in }
+							if pathExists(g, dec, isW, isCallIn, nil) && pathExists(g, w, isCallIn, isDec, nil) {
+								moved = true
+							}
+						})
+						good = !moved
+					}
+				}
 			}
 			c.R.Check(rule, cons+" (computed length)", c.P.InstrPos(in), good, "the start of a computed-length span must be the scanner position read before the spanned text is consumed")
 		})
